@@ -7,6 +7,8 @@ import (
 	"bytes"
 	"fmt"
 	"io"
+	"os"
+	"path/filepath"
 	"runtime"
 	"time"
 
@@ -196,6 +198,7 @@ type WrRec struct {
 	Size  int64    `json:"size"`
 	Werr  string   `json:"werr"`
 	Again bool     `json:"again"`
+	File  string   `json:"file"` // WriteFile over an existing LONGER file: "same" (file content = WriteTo bytes), "differs", or the error text
 	Read  R        `json:"read"`
 	Feat  []string `json:"feat"`
 }
@@ -220,6 +223,27 @@ func runWr(rec *WrRec) {
 	if rec.Werr == "" {
 		p2 := hx.Catch(func() { _, err = s.WriteTo(&buf2) })
 		rec.Again = p2 == "" && err == nil && bytes.Equal(buf.Bytes(), buf2.Bytes())
+	}
+	rec.File = "same"
+	if rec.Werr == "" && rec.ID%5 == 0 { // the file-level entry point, onto a path that already holds a longer file
+		dir, derr := os.MkdirTemp("", "verif_wf")
+		if derr == nil {
+			pth := filepath.Join(dir, "x.mid")
+			junk := bytes.Repeat([]byte{0xEE}, buf.Len()+37)
+			os.WriteFile(pth, junk, 0o644)
+			var ferr error
+			pp := hx.Catch(func() { ferr = s.WriteFile(pth) })
+			got, _ := os.ReadFile(pth)
+			switch {
+			case pp != "":
+				rec.File = "panic: " + pp
+			case ferr != nil:
+				rec.File = "error: " + ferr.Error()
+			case !bytes.Equal(got, buf.Bytes()):
+				rec.File = "differs"
+			}
+			os.RemoveAll(dir)
+		}
 	}
 	rec.Read, _, _ = readBytes(buf.Bytes())
 }
